@@ -130,11 +130,11 @@ Section Compile.
         [IEq (c_iter c) k; IJumpIfFalse (pc + 4 + n); IPop] ++ compile c (pc + 3) s ++ [IJump (pc + 5 + n); IPop]
     | Loop n b =>
         let slot := c_nloc c in
+        let nb := size (S slot) (c_try c) (c_intry c) (Some (S slot, c_try c)) b in
         let c' := {| c_nloc := S slot; c_try := c_try c; c_intry := c_intry c;
-                     c_loop := Some {| l_start := pc + 1; l_break := pc + 7 + csize c s - 8;
+                     c_loop := Some {| l_start := pc + 1; l_break := pc + 7 + nb;
                                        l_nloc := S slot; l_try := c_try c |};
                      c_catch := c_catch c; c_iter := slot |} in
-        let nb := csize c s - 8 in
         (* var i = 0 ; start: i < n ; JumpIfFalse exit ; Pop ; i = i + 1 ; body ; Loop start ; exit: Pop ;
            breaks land here ; Pop (end of the block that declares i) *)
         [IConst 0; ILess slot n; IJumpIfFalse (pc + 6 + nb); IPop; IIncr slot]
@@ -350,7 +350,3 @@ Definition run_m (K : cfg) (p : prog) (fuel : nat) : option (list val * final) :
   | inl _ => None
   end.
 
-(* the real opcodes one instruction of M stands for (used by the trace comparison) *)
-Definition opcodes_of (i : instr) : list nat :=
-  (* indices into YVGen.Opcodes.opcode_names are resolved by name in TryRun.v; here: names *)
-  [].
